@@ -47,6 +47,7 @@ type signSpec struct {
 	chainMut     string // "", "bad-leaf-ku", "missing-root", "reversed", "other-identity"
 	label        string
 	tags         []string
+	ts           *tsSpec // timestamping (C15); nil = nothing configured
 }
 
 type stubLocal struct {
@@ -237,6 +238,7 @@ func runSignSpec(r *Runner, s signSpec, idx int) {
 		SigningScheme: s.scheme,
 		SigningAgent:  s.agent,
 	}
+	tsc := tsSetup(s.ts, req, []byte(s.payload))
 	extAbs := []any{}
 	tags := append([]string{}, s.tags...)
 	for _, a := range s.ext {
@@ -320,8 +322,61 @@ func runSignSpec(r *Runner, s signSpec, idx int) {
 		}()
 		out, err = env.Sign(req)
 	}()
+	if tsc != nil {
+		in["req"].(map[string]any)["ts"] = tsc.absEnv()
+		var produced []byte
+		if remote != nil && len(remote.produced) > 0 {
+			produced = remote.produced[0]
+		}
+		okOut := out
+		if err != nil {
+			okOut = nil
+		}
+		tsc.observe(impl, s.format, signAlg, okOut, produced)
+	}
 	c := &Case{ID: fmt.Sprintf("%s-%d", s.label, idx), K: "sign", In: in, Impl: impl, Class: s.format + "/" + s.label, Tags: tags,
 		Replay: map[string]any{"format": s.format, "local": s.local, "key": s.keyID, "payload": s.payload, "scheme": string(s.scheme), "label": s.label}}
+	if tsc != nil {
+		rp := c.Replay.(map[string]any)
+		rp["timestamping"] = s.ts.label()
+		rp["tsa_chain_pem"] = pemChain(tsc.tsa.chain)
+		if tsc.rec != nil && tsc.rec.calls > 0 && tsc.rec.resps[0] != nil {
+			rp["authority_token_base64"] = base64.StdEncoding.EncodeToString(tsc.rec.resps[0].TimestampToken.FullBytes)
+		}
+		if tsc.rec != nil && tsc.rec.calls > 0 && tsc.rec.errs[0] != nil {
+			rp["timestamper_error"] = tsc.rec.errs[0].Error()
+		}
+	}
+	if s.ts != nil {
+		c.Dist = map[string]string{"format": s.format, "scheme": string(s.scheme), "key": s.keyID, "signer": ifs(s.local, "local", "remote")}
+		if s.scheme != signature.SigningSchemeX509 {
+			// nothing is due: only the scheme dimension
+			c.Dist = map[string]string{"scheme": string(s.scheme) + ifs(s.ts.configured, " (timestamper configured)", "")}
+		} else if s.ts.configured {
+			c.Dist["timestamper"] = s.ts.mode
+			c.Dist["authority"] = s.ts.behaviour
+			c.Dist["tsa-chain"] = fmt.Sprintf("len%d%s", s.ts.tsaLen, ifs(s.ts.tsaMut != "", ":"+s.ts.tsaMut, ""))
+			c.Dist["roots"] = s.ts.roots
+			v := s.ts.validator
+			if v == "vec" {
+				v = fmt.Sprintf("vec-len%d-vs-chain%d", len(s.ts.vec), s.ts.tsaLen)
+				if len(s.ts.vec) == s.ts.tsaLen {
+					worst := "all-ok-or-nonrevokable"
+					for _, x := range s.ts.vec {
+						if x == 3 {
+							worst = "has-revoked"
+						} else if x != 1 && x != 2 && worst != "has-revoked" {
+							worst = "has-unknown"
+						}
+					}
+					v = "vec-matching-length:" + worst
+				}
+			}
+			c.Dist["validator"] = v
+		} else {
+			c.Dist["timestamper"] = "none"
+		}
+	}
 	if _, panicked := impl["panic"]; panicked {
 		impl["ok"] = false
 		r.Submit(c)
